@@ -74,9 +74,33 @@ def repoRun : History → Store → List String
   | [], _ => []
   | (now, op) :: h, s => render (repoView op (step dflt now op s).2) :: repoRun h (step dflt now op s).1
 
-/-- Redis backend vs the same reference, through the repositories' view. -/
+/-- Did this call leave an EMPTY list or hash under its key?  Redis cannot represent one (the key
+vanishes, and with it its lifetime), the reference keeps it: from such a call on, a history is
+outside the cross-backend comparison. -/
+def emptiesContainer (now : Nat) (op : Op) (s : Store) : Bool :=
+  match op with
+  | .remove k _ | .hdel k _ | .set k _ _ =>
+    match find now (step dflt now op s).1 k with
+    | some e =>
+      match e.val with
+      | .list [] => true
+      | .hash [] => true
+      | _ => false
+    | none => false
+  | _ => false
+
+/-- Number of leading calls whose answers are compared across backends: all calls up to and
+including the first one that leaves an empty container. -/
+def comparableLen : History → Store → Nat
+  | [], _ => 0
+  | (now, op) :: h, s =>
+    if emptiesContainer now op s then 1 else 1 + comparableLen h (step dflt now op s).1
+
+/-- Redis backend vs the same reference, through the repositories' view (lifetimes of kv, list,
+hash and counter keys included), on the comparable prefix of the history. -/
 def holdsRepo (h : History) (obs : List String) : Bool :=
-  obs == repoRun h TTLStore.empty
+  obs.length == h.length &&
+  obs.take (comparableLen h TTLStore.empty) == (repoRun h TTLStore.empty).take (comparableLen h TTLStore.empty)
 
 /-- The Redis backend AS FOUND (known finding `redis-hash-int-float`): hash members are decoded
 with `encoding/json` into `interface{}`, so an integer member comes back as a float. Used only as
@@ -92,9 +116,17 @@ def renderRedis (op : Op) (r : Res) : String :=
       ((FMap.toSorted (fun a b => decide (a < b)) h).map (fun p => renderField p.1 ++ "=" ++ renderRedisAtom p.2)) ++ "}"
   | _, r => render r
 
+/-- Redis as found: an emptied list/hash vanishes together with its lifetime. -/
+def redisStep (now : Nat) (op : Op) (s : Store) : Store × Res :=
+  if emptiesContainer now op s then
+    match op.key with
+    | some k => (FMap.erase (step dflt now op s).1 k, (step dflt now op s).2)
+    | none => step dflt now op s
+  else step dflt now op s
+
 def redisRun : History → Store → List String
   | [], _ => []
-  | (now, op) :: h, s => renderRedis op (repoView op (step dflt now op s).2) :: redisRun h (step dflt now op s).1
+  | (now, op) :: h, s => renderRedis op (repoView op (redisStep now op s).2) :: redisRun h (redisStep now op s).1
 
 /-- **Both backends give the same answers** to the repository-layer components
 (`StorageBasedLock`, `CleanupManager`, `GenericRepository`, typed adapters) run on the same scenario:
